@@ -666,6 +666,9 @@ class Normalizer:
         if op in ("sum", "mean", "average"):
             return self.linear_reduce(op, a)
         if op == "phi":
+            c0 = a[0]
+            if isinstance(c0, Term) and c0.op == "not" and len(c0.args) == 1:
+                return self.nf(Term("phi", c0.args[0], a[2], a[1]))  # if not c: A else: B
             x, y = self.nf(a[1]), self.nf(a[2])
             if x == y:
                 return x
@@ -701,6 +704,12 @@ class Normalizer:
                     continue
                 break
             fi = self.freeze(idx)
+            fz = fi
+            while isinstance(fz, Node) and fz.op in ("int",) and len(fz.kids) == 1:
+                fz = fz.kids[0]
+            if isinstance(fz, Node) and fz.op in ("argmin", "argmax") and len(fz.kids) == 1 and fz.kids[0] is wrap(self.nf(base)):
+                # x[argmin(x)] is min(x)
+                return self.nf(Term("amin" if fz.op == "argmin" else "amax", base))
             b = base
             while isinstance(b, Term) and b.op == "store":
                 fj = self.freeze(b.args[1])
@@ -773,6 +782,28 @@ class Normalizer:
             if d.get((EMPTY_S, ()), 0) == half:
                 del d[(EMPTY_S, ())]
                 return P_atom(A("round", wrap(_mk(d))))
+        if op in ("bitand", "bitor"):
+            kids = []
+            for x in a:
+                fx = self.freeze(x)
+                if isinstance(fx, Node) and fx.op == op:
+                    kids.extend(fx.kids)
+                else:
+                    kids.append(fx)
+            # zeros (all-False) is neutral for |
+            if op == "bitor":
+                kids = [k_ for k_ in kids if not (isinstance(k_, Fraction) and k_ == 0)] or kids[:1]
+            uniq = []
+            for k_ in kids:
+                if not any(k_ is u or k_ == u for u in uniq):
+                    uniq.append(k_)
+            uniq.sort(key=lambda z: id(z) if isinstance(z, Node) else hash(z))
+            if len(uniq) == 1:
+                return P_atom(uniq[0]) if isinstance(uniq[0], Node) else P_const(uniq[0])
+            return P_atom(A(op, *uniq))
+        if op == "getitem" and isinstance(a[1], Term) and a[1].op in ("argmin", "argmax") and len(a[1].args) == 1 and a[1].args[0] == a[0]:
+            # x[argmin(x)] is min(x)
+            return self.nf(Term("amin" if a[1].op == "argmin" else "amax", a[0]))
         if op in ("min", "max"):
             kids = []
             for x in a:
